@@ -1206,7 +1206,9 @@ func genConcState(repo string) (string, error) {
 				continue
 			}
 			b := "false"
-			if mutableKind(v.Type(), map[types.Type]bool{}) {
+			// a variable of the predeclared type error holds an immutable value (errors.New, fmt.Errorf);
+			// that it is never assigned again is checked with all the others (vars_only_initialised)
+			if mutableKind(v.Type(), map[types.Type]bool{}) && !types.Identical(v.Type(), types.Universe.Lookup("error").Type()) {
 				b = "true"
 			}
 			vars = append(vars, [3]string{a.short + "." + name, c.typeStr(v.Type()), b})
